@@ -172,6 +172,9 @@ def run_case(desc):
     if desc.get("messy") is not None:
         from vlib.gen import messy
         at = messy.build(desc["messy"])
+        if messy.too_skewed(at):
+            out.discard = "resource-bound:strongly-sheared-cell"
+            return out
         Z = at.get_atomic_numbers()
         pbc = np.asarray(at.get_pbc())
         if np.isnan(reference(preset, Z)).any():
